@@ -4,7 +4,7 @@
    on what the implementation was observed to do (spec_ok).
    result code: 0 agree & spec_ok   1 not agree & spec_ok   2 not agree & not spec_ok
                 3 agree & not spec_ok (model mirrors a defect) *)
-From Verif Require Export C19.Model C19.Pool C19.Wait.
+From Verif Require Export C19.Model C19.Pool C19.Wait C19.CacheInit.
 Open Scope N_scope.
 
 Definition code (agree spec_ok : bool) : N :=
@@ -308,6 +308,10 @@ Definition wait_call_trace (k idx : N) : list wact :=
 Definition model_call_returns (k idx : N) : bool :=
   match w_st (run_trace wexec (wait_call_trace k idx) winit) k with WDone _ => true | _ => false end.
 
+(* first writes to a cache: writer i (value v_i) runs init / fetch / write / ack *)
+Definition cache_round_model (acked : list N) : cstate :=
+  run_trace cexec (flat_map (fun v => cwriter v v) acked) cinit.
+
 (* ------------------------------------------------------------------ *)
 (* cases                                                               *)
 (* ------------------------------------------------------------------ *)
@@ -329,7 +333,13 @@ Inductive case :=
 | CHh (nodes : list (N * N * N)) (bad : bool)
 (* meta.Client updates against a snapshot server: (call, index it waits for at least,
    client index after the return, returned before the deadline) *)
-| CWait (calls : list (N * N * N * bool)) (bad : bool).
+| CWait (calls : list (N * N * N * bool)) (bad : bool)
+(* first writes to a new / freed tsm1.Cache by goroutines released together: per round the
+   values whose write returned nil and what Cache.Values returned afterwards *)
+| CCacheInit (rounds : list (list N * list N)) (bad : bool)
+(* a write racing with `if sh.IsIdle() { sh.Free() }` on an allocated, empty cache: per round
+   the acknowledged points and the points read afterwards (point 1 is in a TSM file) *)
+| CIdleFree (rounds : list (list N * list N)) (bad : bool).
 
 Definition check_case (c : case) : N :=
   match c with
@@ -368,6 +378,13 @@ Definition check_case (c : case) : N :=
   | CWait calls bad =>
       code (forallb (fun c => match c with (k, idx, _, ret) => Bool.eqb (model_call_returns k idx) ret end) calls && negb bad)
            (forallb (fun c => match c with (_, idx, after, ret) => ret && N.leb idx after end) calls && negb bad)
+  | CCacheInit rounds bad =>
+      (* model: the acknowledged writers one after the other (any schedule gives the same set) *)
+      code (forallb (fun r => set_eq (cvisible (cache_round_model (fst r))) (snd r)) rounds && negb bad)
+           (forallb (fun r => subset (fst r) (snd r)) rounds && negb bad)
+  | CIdleFree rounds bad =>
+      code (forallb (fun r => set_eq (cvisible (cache_round_model (fst r))) (snd r)) rounds && negb bad)
+           (forallb (fun r => subset (fst r) (snd r)) rounds && negb bad)
   | CHh nodes bad =>
       (* nothing invented (found <= attempted) / nothing acknowledged is lost *)
       code (forallb (fun n => match n with (_, found, att) => N.leb found att end) nodes && negb bad)
